@@ -60,6 +60,14 @@ def msg_field_atoms(variant, field):
     return p
 
 
+class Msg:
+    """an ActorInputMessage value as seen at a use site: its variant, the kinds its `kind` field may hold (in the use site's context), the constant
+    of its `actual` field (or None), and the block whose guards decide whether it is built (the aggregate itself, or - when a constructor helper
+    builds it - the call of that helper)"""
+    def __init__(self, variant, kinds, actual, body, bb, st, via=None):
+        self.variant, self.kinds, self.actual, self.body, self.bb, self.st, self.via = variant, kinds, actual, body, bb, st, via
+
+
 def direct_msg_aggregate(body, op, adt="ActorInputMessage"):
     """the aggregate statement that directly produces operand `op` (through moves), if it is a construction of `adt`"""
     l = operand_local(op)
@@ -68,6 +76,40 @@ def direct_msg_aggregate(body, op, adt="ActorInputMessage"):
     for kind, x, bb in body.prov.direct_producers(l):
         if kind == "agg" and "adt" in x["rv"] and path_ends(x["rv"]["adt"], adt):
             return (bb, x)
+    return None
+
+
+def resolve_msg(body, op, adt="ActorInputMessage"):
+    """Msg for the message operand `op` of a send in `body`: a direct aggregate, or the result of a local constructor helper (a function whose
+    return value is such an aggregate, e.g. `fn ok_message(&self, kind) -> ActorInputMessage`), its parameters mapped to the call's arguments"""
+    d = direct_msg_aggregate(body, op, adt)
+    if d:
+        bb, st = d
+        aop = agg_field_op(st, "actual")
+        return Msg(st["rv"]["variant"], kind_of_operand(body, agg_field_op(st, "kind")), const_val(aop) if aop else None, body, bb, st)
+    l = operand_local(op)
+    if l is None:
+        return None
+    f = body.facts
+    for kind, x, bb in body.prov.direct_producers(l):
+        if kind != "call" or not x["callee"]:
+            continue
+        h = f.bodies.get(callee_base(x))
+        if h is None or h.coroutine:
+            continue
+        for (hb, hst) in h.aggregates(adt):
+            if hst["lhs"]["local"] != 0 and 0 not in h.prov.flows_forward(hst["lhs"]["local"]):
+                continue
+            kop = agg_field_op(hst, "kind")
+            kinds = set()
+            if kop is not None:
+                hk = kind_of_operand(h, kop)
+                kinds |= hk & {"Build", "Service"}
+                for a in h.prov.operand_atoms(kop, interproc=False):
+                    if a[0] == "param" and a[1] - 1 < len(x["args"]):
+                        kinds |= kind_of_operand(body, x["args"][a[1] - 1])
+            aop = agg_field_op(hst, "actual")
+            return Msg(hst["rv"]["variant"], kinds, const_val(aop) if aop else None, body, bb, hst, via=h)
     return None
 
 
@@ -98,8 +140,8 @@ def sends_via(r, body, blocks=None):
     out = []
     for bb, t in calls_in(body, blocks, lambda n: n in fns):
         dest_at = body.prov.operand_atoms(t["args"][1]) if len(t["args"]) > 1 else set()
-        agg = direct_msg_aggregate(body, t["args"][2]) if len(t["args"]) > 2 else None
-        out.append((bb, t, dest_at, agg))
+        msg = resolve_msg(body, t["args"][2]) if len(t["args"]) > 2 else None
+        out.append((bb, t, dest_at, msg))
     return out
 
 
@@ -457,7 +499,8 @@ def decisions_to(body, region, target, allowed):
         # discard infeasible paths: the same (once-assigned) bool local taken with both polarities, e.g. `if inserted && a {..} if inserted && b {..}`
         seen_pol = {}
         feasible = True
-        for e in p:
+        blocks = ([p[0].src] if p else []) + [e.dst for e in p]
+        for i, e in enumerate(p):
             l = e.label
             if l and l[0] == "bool" and l[2] is not None:
                 src = _bool_source_local(body, l[2])
@@ -465,6 +508,11 @@ def decisions_to(body, region, target, allowed):
                     feasible = False
                     break
                 seen_pol[src] = l[1]
+                # a flag assigned a constant earlier on this very path (`let c = a && b` assigns `false` where a is false) cannot be taken the other way
+                po = path_origins(body, blocks, l[2], i)
+                if len(po) == 1 and po[0][0] == "const" and po[0][1] in ("true", "false") and (po[0][1] == "true") != l[1]:
+                    feasible = False
+                    break
         if not feasible:
             continue
         for e in p:
